@@ -532,53 +532,40 @@ func c03model(c *Ctx) {
 		checkLen("op.Length#multilinestring", f, nil, []oval{oIface{dyn: mkLines(lineA, lineB, lineC)}}, sum3, "three lines")
 	}
 	// ---------------------------------------------------------------- distances
-	segFn := c.P.Func("geom", "distPointToSegment")
+	// the specification: the least squared point-to-segment distance (segSpec2), as a term
 	queries := []symPt{{410, 470}, {460, 410}, {390, 395}, {436, 420}}
-	segDist := func(q symPt, a, b symPt) (poly, float64, bool) {
-		if segFn == nil || c.P.Decl(segFn) == nil {
-			return nil, 0, false
-		}
-		res, why := it.Call(segFn, nil, []oval{it.point(m.ptT, q.x, q.y), it.point(m.ptT, a.x, a.y), it.point(m.ptT, b.x, b.y)}, 0)
-		if why != "" {
-			return nil, 0, false
-		}
-		p, ok := symOf(res[0])
-		if !ok {
-			return nil, 0, false
-		}
-		v, ok := symEval(p, val)
-		return p, v, ok
-	}
-	specDist := func(q symPt, lines ...[]symPt) (poly, bool) {
-		var best poly
+	specDist := func(q symPt, lines ...[]symPt) []poly {
+		var best []poly
 		bestV := 0.0
 		for _, l := range lines {
 			for i := 0; i+1 < len(l); i++ {
-				p, v, ok := segDist(q, l[i], l[i+1])
-				if !ok {
-					return nil, false
-				}
+				ps, v := segSpec2(segCase{"", q, l[i], l[i+1]})
 				if best == nil || v < bestV {
-					best, bestV = p, v
+					best, bestV = ps, v
 				}
 			}
 		}
-		return best, best != nil
+		return best
 	}
 	checkDist := func(key string, f *types.Func, recv oval, lines ...[]symPt) {
 		for _, q := range queries {
-			want, ok := specDist(q, lines...)
-			if !ok {
-				get(key).unk = "the point-to-segment distance is not interpretable"
-				return
-			}
+			wants := specDist(q, lines...)
 			res, ok := call(key, f, recv, it.point(m.ptT, q.x, q.y))
 			if !ok {
 				return
 			}
 			got, ok := symRes(key, res[0])
-			if ok && !got.equal(want) {
-				bad(key, "the distance from a query point is %s, want the least point-to-segment distance over all segments, %s", showVal(res[0]), want.canon())
+			if !ok {
+				return
+			}
+			matches := false
+			for _, w := range wants {
+				if symRationalEqual(symMul(got, got), w) {
+					matches = true
+				}
+			}
+			if !matches {
+				bad(key, "the distance from the query point (%d, %d) is %s, want the least point-to-segment distance over all segments, the root of %s", q.x, q.y, showVal(res[0]), short(wants[0].canon()))
 				return
 			}
 		}
